@@ -263,19 +263,21 @@ endstruc
         lea     tmp3, [n - 1]
         shl     tmp3, 4
         add     tmp, tmp3
-        vmovdqu xmm1, [tmp] ;; load last block
 
         ;; get mask for padding
 %ifndef LINUX
         mov     tmp3, rcx       ; save rcx
 %endif
         mov     rcx, r
-        mov     tmp, 0xffff
-        shl     tmp, cl
+        mov     DWORD(tmp5), 0xffff
+        shl     DWORD(tmp5), cl
 %ifndef LINUX
         mov     rcx, tmp3       ; restore rcx
 %endif
-        kmovq   k1, tmp
+        kmovq   k1, tmp5
+        not     tmp5
+        kmovq   k2, tmp5
+        vmovdqu8 xmm1{k2}{z}, [tmp] ;; load the r message bytes of the last block only
 
         lea     tmp, [rel padding_0x80_tab16 + 16]
         sub     tmp, r
